@@ -524,9 +524,21 @@ def variants():
         w, q = np.linalg.eigh(a)
         if mode == "array":
             return S("DenseSymmetricMatrix", array=A(a), eigvec=A(q), eigval=A(w))
+        # a valid eigendecomposition that is NOT the one `eigh` returns (descending order), supplied
+        # completely or only in part: whatever the class does with a partial one, every property
+        # must be stable under repetition and independent of the access order (seed C19-1)
+        wd, qd = w[::-1].copy(), q[:, ::-1].copy()
+        if mode == "desc-both":
+            return S("DenseSymmetricMatrix", array=A(a), eigvec=A(qd), eigval=A(wd))
+        if mode == "desc-vec-only":
+            return S("DenseSymmetricMatrix", array=A(a), eigvec=A(qd), eigval=None)
+        if mode == "desc-orth-only":
+            return S("DenseSymmetricMatrix", array=A(a), eigvec=S("OrthogonalMatrix", array=A(qd)), eigval=None)
+        if mode == "desc-val-only":
+            return S("DenseSymmetricMatrix", array=A(a), eigvec=None, eigval=A(wd))
         return S("DenseSymmetricMatrix", array=A(a), eigvec=S("OrthogonalMatrix", array=A(q)), eigval=A(w))
 
-    for mode in ("none", "array", "orth"):
+    for mode in ("none", "array", "orth", "desc-both", "desc-vec-only", "desc-orth-only", "desc-val-only"):
         V[f"DenseSymmetricMatrix/eig-{mode}"] = lambda rng, n, mode=mode: dsym(rng, n, mode)
 
     V["OrthogonalMatrix"] = lambda rng, n: S("OrthogonalMatrix", array=A(orth_arr(rng, n)))
